@@ -823,11 +823,16 @@ def rewrite_body(body, ctx, cname):
                 # exclude C-style "(T)(x)" : prev == '(' and token after T is ')' -- not this branch since next is '('
                 e = match_tok(toks, n, '(', ')')
                 inner_sig = [x for x in toks[n + 1:e] if x.kind not in ('ws', 'pp')]
+                if len(inner_sig) == 4 and [x.text for x in inner_sig[:2]] == ['(', '*'] and inner_sig[3].text == ')' and inner_sig[2].text in ctx.conv_objects:
+                    inner_sig = [inner_sig[2]]       # a local reference already rewritten to (*name) (R7local)
+                    deref_local = True
+                else:
+                    deref_local = False
                 if len(inner_sig) == 1 and inner_sig[0].kind == 'id' and inner_sig[0].text in ctx.conv_objects:
                     # R3c: T(obj) on an object of a class with conversion operators -> Class__to_T(&obj)
                     cls_ = ctx.conv_objects[inner_sig[0].text]
                     ctype_ = ctx.tm.map(t.text)[0]
-                    new = [Tok('id', '%s__to_%s' % (cls_, re.sub(r'\W+', '_', ctype_))), Tok('op', '('), Tok('op', '&'), Tok('op', '('), inner_sig[0], Tok('op', ')'), Tok('op', ')')]
+                    new = [Tok('id', '%s__to_%s' % (cls_, re.sub(r'\W+', '_', ctype_))), Tok('op', '('), Tok('op', '&'), Tok('op', '(')] + ([Tok('op', '*')] if deref_local else []) + [inner_sig[0], Tok('op', ')'), Tok('op', ')')]
                     toks = toks[:i] + new + toks[e + 1:]
                     ctx.fire('R3c')
                     i += len(new)
